@@ -318,6 +318,46 @@ theorem C18_index_on_bounds (I : UIce) (hlh : I.lo ≤ I.hi) : I.index I.lo = I.
   have a4 : ¬ I.hi > I.hi := lt_irrefl _
   constructor <;> simp [UIce.index, a2, a3]
 
+/-! ### the points the hypotheses above exclude -/
+
+/-- NEGATION of the emitted-direction claim on the excluded set `firstLeg = 0` (finding K22): a source exactly on the
+bound its reflected path first heads to makes the first leg empty, and the emitted direction is the zero vector
+(not a unit vector, not the direction to the mirrored receiver) -/
+theorem C18_emitted_zero_on_boundary (I : UIce) (p q : P3) (m : Nat) (up : Bool)
+    (hf : firstLeg I p.z up = 0) :
+    uEmitted p q (m + 1) (uPointsDir I p q (m + 1) up) = ⟨0, 0, 0⟩ := by
+  have hbnd : (if up then I.hi else I.lo) - p.z = 0 := by
+    cases up <;> simp [firstLeg] at hf ⊢ <;> linarith
+  rw [uPointsDir_succ]
+  simp only [uEmitted, Nat.succ_ne_zero, false_and, if_false, List.map_cons, uMid, List.cons_append, sub3, hf,
+    mul_zero, add_zero, zero_mul, add_sub_cancel_left, hbnd]
+  simp [PyrexR.Uni.normalize, eqR, Rsqrt]
+
+/-- the error branch: a path object with reflections and launch angle exactly `0` (both endpoints on the bound the path
+heads to: `Σdz = 0`) has no points — the `ValueError("Invalid initial direction")` of `_points` -/
+theorem C18_points_reject_zero_angle (I : UIce) (p q : P3) (m : Nat) : uPoints I p q (m + 1) 0 = none := by
+  simp [uPoints, uDirOfTheta]
+
+/-- exactly horizontal launch in a uniform layer (excluded from `C18_split_uniform_same_root`): between equal depths
+`_get_radial_distance` answers `None` ("take the rest of rho"), between different depths NaN (no such path) -/
+theorem C18_horizontal_radial (z0 z1 : ℝ) :
+    uRadial (Real.pi / 2) [z0, z0] = Rad.rest ∧ (z0 ≠ z1 → uRadial (Real.pi / 2) [z0, z1] = Rad.nan) := by
+  have he : eqR (Real.pi / 2) (Rpi / 2) := ⟨le_refl _, le_refl _⟩
+  constructor
+  · simp [uRadial, he, diffs, eqR]
+  · intro hne
+    have : ¬ eqR (z1 - z0) 0 := by
+      intro h; apply hne; have := le_antisymm h.1 h.2; linarith
+    simp [uRadial, he, diffs, this]
+
+/-- two-element groups (turn-over inside a gradient layer, excluded from `C18_snell_at_boundary` by `two = false`): unless
+the `None`-index guard fires, the step is the single-group step applied to the mirrored angle -/
+theorem C18_step_two_group (c : StepCtx) (θ : ℝ) (h2 : c.two = true)
+    (hg : (guardHit c (Real.pi - θ) && c.turnAtBoundary) = false) :
+    stepAngle c θ = stepAngle { c with two := false } (Real.pi - θ) := by
+  simp only [stepAngle, h2, if_true, Bool.true_and, Rpi, hg, Bool.false_eq_true, if_false, Bool.false_and]
+  rfl
+
 /-! ## the enumeration of layer index paths -/
 
 open PyrexD.LayerPaths in
@@ -381,3 +421,6 @@ example (n θ : ℝ) : n * Real.sin θ = n * Real.sin θ := rfl
 
 /-- a uniform ice with `lo ≤ hi` (hypothesis of `C18_index_on_bounds`, `C18_uniform_tof`) -/
 example : ((⟨1.5, -100, 0, some 1, some 1.2⟩ : UIce).lo ≤ (⟨1.5, -100, 0, some 1, some 1.2⟩ : UIce).hi) := by norm_num
+
+/-- the excluded sets are inhabited: a source on the surface heading up has an empty first leg -/
+example : firstLeg (⟨1.5, -100, 0, some 1, some 1.3⟩ : UIce) 0 true = 0 := by simp [firstLeg]
